@@ -54,10 +54,12 @@ def make_table(rng, nmodels=None, allow_altloc=True, allow_blank_chain=False):
     origin = [rng.choice([-600.0, -150.0, 1500.0, 5000.0]) if far and rng.random() < 0.7 else rng.uniform(-40, 40) for _ in range(3)]
     skeleton = []  # (record, chain, resnum, icode, resname, [(name, element, charge, altlocs)])
     for ch in chains:
-        num = rng.choice([-999, -12, -3, -1, 0, 1, 1, 1, 98, 996, 9990])
+        num = rng.choice([-999, -12, -3, -1, 0, 1, 1, 1, 98, 996, 9990, 9996])
         for k in range(rng.randint(1, 4)):
             icode = rng.choice([None, None, None, "A", "B", "Z"])
             if icode is None or k == 0:
+                if num == 9999:
+                    break  # the chain ends at the largest number the four columns hold
                 num = min(9999, num + rng.choice([1, 1, 2, 10]))
             resname = rng.choice(["G", "A", "C", "U", "DG", "DT", "PSU", "5MC", "2MG", "N", "GTP"])
             base = PURINE if resname in ("G", "A", "DG", "2MG", "GTP") else PYRIMIDINE
